@@ -127,7 +127,9 @@ func (f Nth) locate(pp Expr, data any, rest Expr, max int) (locs []Expr) {
 			has = true
 		}
 	default:
-		v, has = reflectGetNth(td, i)
+		if v, has = reflectGetNth(td, i); has && i < 0 {
+			i += reflect.ValueOf(td).Len()
+		}
 	}
 	if has {
 		locs = locateNthChildHas(pp, Nth(i), v, rest, max)
@@ -139,7 +141,6 @@ func (f Nth) locate(pp Expr, data any, rest Expr, max int) (locs []Expr) {
 func (f Nth) Walk(rest, path Expr, nodes []any, cb func(path Expr, nodes []any)) {
 	var value any
 	index := int(f)
-	path = append(path, f)
 	switch tv := nodes[len(nodes)-1].(type) {
 	case []any:
 		if index < 0 {
@@ -170,7 +171,11 @@ func (f Nth) Walk(rest, path Expr, nodes []any, cb func(path Expr, nodes []any))
 		if value, has = reflectGetNth(tv, index); !has {
 			return
 		}
+		if index < 0 {
+			index += reflect.ValueOf(tv).Len()
+		}
 	}
+	path = append(path, Nth(index)) // the normalized (non-negative) index
 	if 0 < len(rest) {
 		rest[0].Walk(rest[1:], path, append(nodes, value), cb)
 	} else {
